@@ -30,8 +30,11 @@ impl Conversion {
             let size = self.hiragana.chars().collect::<Vec<_>>().len();
             let mut alphabet = self.alphabets[0].clone();
             if sokuon_count > 0 {
-                let tmp = alphabet.chars().take(1).collect::<String>();
-                alphabet = format!("{}{}", tmp.repeat(sokuon_count), alphabet)
+                alphabet = format!(
+                    "{}{}",
+                    spell_sokuon(alphabet.chars().next(), sokuon_count),
+                    alphabet
+                )
             }
 
             Some((alphabet, size + sokuon_count))
@@ -39,6 +42,30 @@ impl Conversion {
             None
         }
     }
+}
+
+/// 重ねることで促音を表現できる子音。クライアントのローマ字変換と揃えている
+const DOUBLING_CONSONANTS: [char; 17] = [
+    't', 'b', 'j', 'f', 'h', 's', 'w', 'r', 'y', 'p', 'k', 'g', 'z', 'c', 'v', 'd', 'm',
+];
+/// 子音を重ねられない場合に利用する促音自体の綴り
+const SOKUON_SPELLING: &str = "xtu";
+
+/// `count` 個の促音の綴りを返す。後続の文字が重ねられる子音であれば重ね、そうでなければ促音自体の綴りを利用する
+pub(crate) fn spell_sokuon(next: Option<char>, count: usize) -> String {
+    match next.map(|c| c.to_ascii_lowercase()) {
+        Some(c) if DOUBLING_CONSONANTS.contains(&c) => c.to_string().repeat(count),
+        _ => SOKUON_SPELLING.repeat(count),
+    }
+}
+
+/// 先頭の促音の後ろにかなが続かない場合(末尾、アルファベットなど)の促音部分の綴りと、その文字数を返す
+pub(crate) fn expand_lonely_sokuon(s: &str) -> Option<(String, usize)> {
+    let count = s.chars().take_while(|c| *c == 'っ' || *c == 'ッ').count();
+    if count == 0 {
+        return None;
+    }
+    Some((spell_sokuon(s.chars().nth(count), count), count))
 }
 
 pub(crate) fn get_conversions() -> Vec<Conversion> {
